@@ -87,6 +87,19 @@ KERNEL['C14'] = {
     'tech': SYS_TECH + '; fault point as a symbolic request index',
 }
 
+KERNEL['C04'] = {
+    'text': '2-safety by self-composition: two runs of the real World.run() inside one symbolic path, the canonical configuration (all synchronous, lazy on, cache on, debug off, start order as written) and one variant (every transport-mode assignment with solver-chosen delivery order, cache off, lazy off, debug on, reversed start order, hash salt; thorough: combined and D=1), sharing the symbolic simulator behaviour; z3 decides equality of the per-simulator (time, inputs) sequences (times as terms, inputs with provenance tokens)',
+    'ref': 'DESIGN.md section 5 C04',
+    'note': SYS_NOTE + ' The local/remote dimension is covered as far as scheduling goes (a remote simulator is an asynchronous one); the byte path of the remote transport is outside.',
+    'tech': SYS_TECH + '; self-composition (two runs per path)',
+}
+KERNEL['C17'] = {
+    'text': 'system runs of the real World.run(rt_factor=...) on a virtual clock (scheduler.perf_counter and loop.time() read one value only the oracle advances; real asyncio timer heap; selector never blocks): for rt_factor in {1/2,1,3} x time_resolution in {1,1/2} x grouped x 1-2 simulators, with symbolic timer lateness / reply latency / external event time and solver-chosen event order, z3 decides the pacing bound at every step begin, completion without exception, no too-slow report under zero latency and exact timers, rt_strict as a second run in the same path, and the three set_event cases',
+    'ref': 'DESIGN.md section 5 C17',
+    'note': 'the clock is a real number (IEEE-754 rounding outside the claim); N <= 2, until 3-4, <= 1 external event; rt_check wrapped by a recorder that calls the original (to attribute reports to simulators)',
+    'tech': SYS_TECH + '; virtual real-valued clock (QF_LRA)',
+}
+
 NOT_APPLICABLE = {}
 
 
